@@ -8,7 +8,7 @@ RULE = ('for every operation variant of the C05 table, a dry run lists every I/O
         'for EVERY such call k a child runs the operation with exactly that call raising (EIO/ENOSPC for writes, PermissionError for '
         'rename-family, OperationalError for SQL) instead of being performed; the child records completed/raised and exits; if it completed, a fresh handle must see exactly the fault-free result; the folder is '
         'read raw and through a fresh Container (C05 oracle), then stale *.lock files are removed and the operation is re-run by a new '
-        'process: views == model, raw consistency, validate() (interrupted repacks excepted). Additionally (E5) a real errno (ENOSPC for write/pwrite64/'
+        'process: views == model, raw consistency, validate() (interrupted repacks excepted); after a sync or SQL fault the SAME handle first performs one more committing call (an add to a pack or clean_storage), so whatever the failed call left pending in its index session must be harmless. Additionally (E5) a real errno (ENOSPC for write/pwrite64/'
         'ftruncate, EIO otherwise) is injected by strace into the n-th real syscall of an uninstrumented run, so CPython\'s and SQLite\'s own '
         'error handling (SQLITE_FULL, SQLITE_IOERR, rollback) is what is exercised. Distinct = (variant, call index, errno).')
 ASSUMPTIONS = ['the injected error replaces the call (nothing of it reaches the disk); partial effects inside one call are syscall-level (thorough E5)',
